@@ -316,10 +316,23 @@ func (e *Engine) mergeValue(c *Term, a, b Value) Value {
 		}
 		return e.mergePtr(c, x, y)
 	case SliceV:
-		y := b.(SliceV)
+		y, ok := b.(SliceV)
+		if !ok {
+			return Undef{"merge slice with non-slice"}
+		}
+		if e.mergeStrict && (x.len != y.len || x.cap != y.cap) {
+			// lengths stay concrete: paths whose slices differ in length are not merged
+			unsup("merging slices of different lengths")
+		}
 		return SliceV{e.mergePtr(c, x.p, y.p), e.Ite(c, x.len, y.len), e.Ite(c, x.cap, y.cap)}
 	case StrV:
-		y := b.(StrV)
+		y, ok := b.(StrV)
+		if !ok {
+			return Undef{"merge string with non-string"}
+		}
+		if e.mergeStrict && x.len != y.len {
+			unsup("merging strings of different lengths")
+		}
 		return StrV{e.mergePtr(c, x.p, y.p), e.Ite(c, x.len, y.len)}
 	case StructV:
 		y := b.(StructV)
